@@ -136,13 +136,20 @@ def replay_golden_variants(doc, path):
     from .server import SUBPACKAGES
     srv = doc.get("server") or {}
     order = srv.get("import_order") or SUBPACKAGES
-    a = fresh_golden(doc["request"], [], 0, SUBPACKAGES)
-    b = fresh_golden(doc["request"], ["-OO"], srv.get("hashseed", 1), order)
-    c = fresh_golden(doc["request"], ["-O"], 12345, list(reversed(order)))
-    print("the call evaluated alone in three freshly started interpreters:")
-    for name, o in (("default", a), ("-OO", b), ("-O", c)):
-        print("  %-8s %s" % (name, json.dumps(o)[:200]))
-    if not (a == b == c):
+    cases = [("found-in", list(srv.get("flags") or []), srv.get("hashseed", 0), order)]
+    pv = doc.get("peer_variant")
+    if pv:
+        cases.append(("peer", list(pv.get("flags") or []), pv.get("hashseed", 1),
+                      pv.get("import_order") or SUBPACKAGES))
+    cases += [("default", [], 0, SUBPACKAGES), ("-OO", ["-OO"], 1, order),
+              ("-O", ["-O"], 12345, list(reversed(order)))]
+    outs = []
+    print("the call evaluated alone in freshly started interpreters:")
+    for name, flags, hs, od in cases:
+        o = fresh_golden(doc["request"], flags, hs, od)
+        outs.append(o)
+        print("  %-9s flags=%s hashseed=%s -> %s" % (name, flags, hs, json.dumps(o)[:160]))
+    if any(o != outs[0] for o in outs[1:]):
         print("VIOLATION property=C20 replay=%s" % path)
         return 1
     print("not reproduced")
